@@ -337,6 +337,24 @@ func (s *State) AddHard(c Ident, now int64) int {
 	return Err
 }
 
+// ViaCertOnly reports whether AddHardCert of c would meet the case the property leaves open: the upstream lists a
+// certificate over c's key but not the key itself (and c is new to the shim, which is not locked).
+func (s *State) ViaCertOnly(c Ident, now int64) bool {
+	if s.Locked || s.Closed || !c.IsCert || s.memFind(c.Blob) >= 0 {
+		return false
+	}
+	plain, viaCert := false, false
+	for _, id := range s.upList(now) {
+		if !id.IsCert && id.Blob == c.KeyBlob {
+			plain = true
+		}
+		if id.IsCert && id.KeyBlob == c.KeyBlob {
+			viaCert = true
+		}
+	}
+	return viaCert && !plain
+}
+
 // Remove applies Remove(blob).
 func (s *State) Remove(blob string, now int64) int {
 	if s.Locked || s.Closed {
